@@ -16,9 +16,9 @@ theorem struct_local (d : Dialect) (m m' : Mode) (hm : m.isCanon = false) (hm' :
        | .error e => .error e) := by
   simp only [parseField] at h ⊢
   cases fieldShell_ok _ _ _ _ _ _ _ _ h with
-  | emptyAbsent _ ho _ _ => cases ho
+  | emptyAbsent _ ho _ _ _ => cases ho
   | any ha _ _ => cases ha
-  | absent _ ho _ _ => cases ho
+  | absent _ ho _ _ _ => cases ho
   | flagSet hh _ _ =>
     unfold header at hh
     cases h0 : parseTagLen (d.forMode m) c with
@@ -152,6 +152,7 @@ theorem innerAllR_mergeHead (r : Ret) (n : Nat) (rest : List Ret) (acc : Nat) :
     · have : n + k = 0 := by omega
       rw [this]; simp only [Nat.lt_irrefl, if_false, innerAllR, Nat.add_zero]
   | plain => simp only [mergeInner, he, innerAllR]
+  | nonFatalErrorsPtr k => simp only [mergeInner, he, innerAllR]
   | errorsPtr fs => simp only [mergeInner, he, innerAllR]
 
 /-- merging per certificate and then combining is the same as combining the payload results on top of the
@@ -173,7 +174,37 @@ theorem innerAllR_merge (inner : AVal → Ret) : ∀ (xs : List (AVal × Bool)) 
       rw [innerAllR_merge inner xs]
       cases l <;> simp <;> congr 1 <;> omega
     | plain => rfl
+    | nonFatalErrorsPtr k => rfl
     | errorsPtr fs => rfl
+
+/-- the fuel of the first loop of `ParseCertificates` is immaterial once it exceeds the input length: the `none` it can
+return is never fuel exhaustion (every accepted envelope consumes at least two octets) -/
+theorem splitCertificates_fuel (d : Dialect) (k : Bool) : ∀ (f f' : Nat) (bs : Bytes), bs.length < f → bs.length < f' →
+    splitCertificates d k f bs = splitCertificates d k f' bs
+  | 0, _, _, h, _ => by omega
+  | _, 0, _, _, h => by omega
+  | f+1, f'+1, [], _, _ => by simp [splitCertificates]
+  | f+1, f'+1, b :: bs, h, h' => by
+    simp only [splitCertificates]
+    cases hs : parseField d .strict Gen.ty_certificate {} (b :: bs) with
+    | ok x =>
+      obtain ⟨v, r⟩ := x
+      have hl := cert_nonempty d _ _ _ _ hs
+      simp only []
+      rw [splitCertificates_fuel d k f f' r (by omega) (by omega)]
+    | error e =>
+      simp only []
+      cases k with
+      | false => rfl
+      | true =>
+        simp only [if_true]
+        cases hl : parseField d .lax Gen.ty_certificate {} (b :: bs) with
+        | error e' => rfl
+        | ok x =>
+          obtain ⟨v, r⟩ := x
+          have hlen := cert_nonempty d _ _ _ _ hl
+          simp only []
+          rw [splitCertificates_fuel d true f f' r (by omega) (by omega)]
 
 theorem countLax_eq (d : Dialect) : ∀ cs : List Bytes, countLax d cs = ((cs.map (certVal d)).filter (·.2)).length
   | [] => rfl
